@@ -1409,13 +1409,32 @@ fn spanmon_op(toks: &[&str]) -> Result<String, String> {
     let seed: u64 = arg_num(toks.get(1))?;
     let nctx: usize = arg_num(toks.get(2))?;
     let nspans: usize = arg_num(toks.get(3))?;
+    // mode 0: lengths up to 2^40 (most spans take the interned path); mode 1: small contexts
+    // (inline path, many contexts); mode 2: straddling the 2^38 offset boundary
+    let mode: u32 = if toks.len() > 4 { arg_num(toks.get(4))? } else { 0 };
     let mut rng = Rng(seed);
     let mut sm = SpanManager::new();
     let mut ctxs = Vec::new();
     let mut total: u128 = 0;
     let mut max_len = 0usize;
     for _ in 0..nctx {
-        let len: usize = match rng.below(10) {
+        let len: usize = if mode == 1 {
+            match rng.below(6) {
+                0 => 0,
+                1 => 1,
+                2 => rng.below(100) as usize,
+                3 => (1usize << 25) + rng.below(5) as usize - 2,
+                _ => rng.below(100_000) as usize,
+            }
+        } else if mode == 2 {
+            // a few big contexts so that the running offset crosses 2^38 in the middle of the list
+            match rng.below(4) {
+                0 => (1usize << 36) + rng.below(1000) as usize,
+                1 => rng.below(1 << 20) as usize,
+                2 => (1usize << 25) + rng.below(5) as usize - 2,
+                _ => rng.below(1 << 35) as usize,
+            }
+        } else { match rng.below(10) {
             0 => 0,
             1 => 1,
             2 => rng.below(100) as usize,
@@ -1425,7 +1444,7 @@ fn spanmon_op(toks: &[&str]) -> Result<String, String> {
             6 => rng.below(1 << 30) as usize,
             7 => rng.below(1 << 39) as usize,
             _ => rng.below(100_000) as usize,
-        };
+        } };
         // keep the sum of lengths below 2^62 so that the manager's u64 arithmetic
         // is not what is being tested
         if total + (len as u128) + 1 >= (1u128 << 62) {
